@@ -38,6 +38,20 @@ func (c *Ctx) emitMore03(r opRun, m modeling.Mesh, _ bool) {
 			}
 			c.Emit("c03.holds.crop_contract", a+" "+strings.Join(f[1:7], " ")+" "+in+" "+out, "true")
 		}
+	case "translatenode", "scalenode":
+		a := f[0]
+		if a == "-" {
+			a = modeling.PositionAttribute
+		}
+		c.Emit("c03.holds.frame_spec", "3 "+a+" "+in+" "+out, "true")
+	case "rotatenode": // args: attr|- qx qy qz qw mesh|-
+		if f[5] != "-" {
+			a := f[0]
+			if a == "-" {
+				a = modeling.PositionAttribute
+			}
+			c.Emit("c03.holds.frame_spec", "3 "+a+" "+in+" "+out, "true")
+		}
 	case "alongnormalnode":
 		if f[3] != "-" && len(r.out[0].Float3Attributes()) > 0 {
 			a := f[0]
